@@ -121,6 +121,8 @@ var c04Patterns = []interface{}{
 	M{"a": "?x", "b": "?x"},
 	M{"?k": 1.0},
 	M{"a": "?<n"},
+	// an array pattern whose variable stands before a constant
+	M{"l": []interface{}{"?e", "b"}},
 }
 
 var c04Targets = []string{"n1", "n2", "@t", "@?t", "missing"}
